@@ -396,7 +396,7 @@ S = {
  "C13-7": ("C13", "/tmp/seed4/C13/_seed/2", "seed4_demo2_test.go", "^(TestSeed4Demo2_)", ".", ['C13'], "",
    'two cooperating sites: the bookkeeping frame is copied at once after a PASSIVE checkpoint that could not restart the WAL; MinCheckpointPageN rule guarded by syncedSinceCheckpoint',
    "a short application read transaction overlapping one sync's checkpoint, then the application goes idle"),
- "C14-6": ("C14", "/tmp/seed4/C14/_seed/1", "seed4_demo1_test.go", "^(TestSeed4Demo1_)", ".", ['C14'], "",
+ "C14-6": ("C14", "/tmp/seed4/C14/_seed/1", "seed4_demo1_test.go", "^(TestSeed4Demo1_)", ".", ['C14', 'C12'], "",
    'promoteToWriteTx helper: the busy retry of the _litestream_lock insert runs on db.db instead of the transaction and autocommits a row',
    "an application write transaction holding the lock for longer than litestream's busy timeout exactly when litestream promotes its own transaction"),
  "C14-7": ("C14", "/tmp/seed4/C14/_seed/2", "seed4_demo2_test.go", "^(TestSeed4Demo2_)", ".", ['C14'], "",
